@@ -2,7 +2,7 @@
     memtable flow. *)
 From Coq Require Import ZArith NArith List Bool Lia.
 From Coq Require Import ZifyBool ZifyNat ZifyN.
-From Snel Require Import Base.Bytes Model.Float64 Model.RustText Model.Json Model.ValueTiers.
+From Snel Require Import Base.Bytes Model.Float64 Model.RustText Model.JsonV7 Model.ValueTiers.
 From Snel Require Import Proofs.ValueTextProofs.
 Import ListNotations.
 
